@@ -686,6 +686,52 @@ func init() {
 		Text: "Between the translation of a function's body and the moment its bytecode is stored as the function, every path either emits a return instruction or has just seen that the last instruction emitted is one: a function's bytecode always ends in a return, whatever the shape of its body, so a call can never run off the end of the function (which the machine takes for a quiet null result)."})
 }
 
+// readFromProgram: the opcode value was read out of the program being emitted —
+// by a function that walks it, or by a loop over its bytes in place.
+func readFromProgram(v ssa.Value, a *anchors) bool {
+	field := instructionsField(a)
+	seen := map[ssa.Value]bool{}
+	var walk func(v ssa.Value, d int) bool
+	walk = func(v ssa.Value, d int) bool {
+		if v == nil || seen[v] || d > 8 {
+			return false
+		}
+		seen[v] = true
+		switch x := v.(type) {
+		case *ssa.Call:
+			cal := x.Call.StaticCallee()
+			if cal == nil || len(cal.Blocks) == 0 {
+				return false
+			}
+			for _, b := range cal.Blocks {
+				if ret, ok := terminator(b).(*ssa.Return); ok && len(ret.Results) == 1 {
+					if walk(ret.Results[0], d+1) {
+						return true
+					}
+				}
+			}
+		case *ssa.Phi:
+			for _, e := range x.Edges {
+				if walk(e, d+1) {
+					return true
+				}
+			}
+		case *ssa.Convert:
+			return walk(x.X, d+1)
+		case *ssa.ChangeType:
+			return walk(x.X, d+1)
+		case *ssa.UnOp:
+			if ia, ok := x.X.(*ssa.IndexAddr); ok && x.Op == token.MUL {
+				if ld, ok := ia.X.(*ssa.UnOp); ok && fieldKey(ld.X) == field {
+					return true
+				}
+			}
+		}
+		return false
+	}
+	return walk(v, 0)
+}
+
 func ruleBodyReturn(p *Program, r *Reporter) {
 	a := needAnchors(p, r)
 	if a == nil {
@@ -744,7 +790,7 @@ func ruleBodyReturn(p *Program, r *Reporter) {
 								if _, isC := x.(*ssa.Const); isC {
 									x, y = y, x
 								}
-								if c, ok := x.(*ssa.Call); ok && c.Call.StaticCallee() != nil && isOpcodeType(c.Type()) && oc.ssaName(y) == "OpReturn" {
+								if isOpcodeType(x.Type()) && readFromProgram(x, a) && oc.ssaName(y) == "OpReturn" {
 									knownSide := pd.Succs[0]
 									if bo.Op == token.NEQ {
 										knownSide = pd.Succs[1]
